@@ -408,3 +408,20 @@ mutant('C16', 'hexagonal constructor gamma 60', BOXF, "return cls(a=a, b=a, c=c,
 mutant('C16', 'identify order: tetragonal before hexagonal and cubic', BOXF, "        if self.iscubic(rtol=rtol, atol=atol):\n            return 'cubic'\n        elif self.ishexagonal(rtol=rtol, atol=atol):\n            return 'hexagonal'", "        if self.ishexagonal(rtol=rtol, atol=atol):\n            return 'cubic'\n        elif self.iscubic(rtol=rtol, atol=atol):\n            return 'hexagonal'", 'FAMILY')
 benign('C16', 'vector3to4 thirds as multiplication', MILF, "newindices[..., 0] = (2 * indices[..., 0] - indices[..., 1]) / 3", "newindices[..., 0] = (2 * indices[..., 0] - indices[..., 1]) * (1 / 3)")
 benign('C16', 'h00 sign via product with one', MILF, "                    s = np.sign(indices[0])\n                    a_uvw = np.array([0, 1, 0], dtype=int)", "                    s = np.sign(indices[0] * 1)\n                    a_uvw = np.array([0, 1, 0], dtype=int)")
+
+# ------------------------------------------------------------------ C10
+SYSF = 'atomman/core/System.py'
+ATF = 'atomman/core/Atoms.py'
+mutant('C10', 'uc.model memory-order flatten', UC, "datamodel['value'] = value.flatten().tolist()", "datamodel['value'] = value.ravel(order='K').tolist()", 'UC-MODEL')
+mutant('C10', 'uc.model drops unit', UC, "    if units is not None:\n        datamodel['unit'] = units\n", "", 'UC-MODEL')
+mutant('C10', 'value_unit ignores shape', UC, "    if 'shape' in term:\n        shape = tuple(term['shape'])\n        value = value.reshape(shape)\n    \n    return value", "    return value", 'UC-MODEL')
+mutant('C10', 'Box.model reads bvect twice', BOXF, "cvect = uc.value_unit(model['cvect'])", "cvect = uc.value_unit(model['bvect'])", 'BOX-MODEL')
+mutant('C10', 'Box.model origin without unit', BOXF, "model['box']['origin'] = uc.model(self.origin, length_unit)", "model['box']['origin'] = uc.model(self.origin)", 'BOX-MODEL')
+mutant('C10', 'Box.model read bypasses setter', BOXF, "            self.set(avect=avect, bvect=bvect, cvect=cvect, origin=origin)", "            self.__vects[:] = [avect, bvect, cvect]\n            self.__origin[:] = origin", 'BOX-MODEL')
+mutant('C10', 'masses written only if all set', SYSF, "            if mass is not None:\n                addmasses = True\n                break", "            if mass is None:\n                addmasses = False\n                break\n            addmasses = True", 'SYSTEM-MODEL')
+mutant('C10', 'scaled read not converted back', SYSF, "                if prop['data'].get('unit', None) == 'scaled':\n                    self.atoms.view[prop['name']] = self.box.position_relative_to_cartesian(self.atoms.view[prop['name']]) ", "                pass", 'SYSTEM-MODEL')
+mutant('C10', 'scaled write converts only pos', SYSF, "            if prop['data'].get('unit', None) == 'scaled':\n                prop['data'] = uc.model(self.box.position_cartesian_to_relative(", "            if prop['data'].get('unit', None) == 'scaled' and prop['name'] == 'pos':\n                prop['data'] = uc.model(self.box.position_cartesian_to_relative(", 'SYSTEM-MODEL')
+mutant('C10', 'atoms model: names sorted', ATF, "        for prop in prop_unit:\n            unit = prop_unit.get(prop, None)", "        for prop in sorted(prop_unit):\n            unit = prop_unit.get(prop, None)", 'ATOMS-MODEL')
+mutant('C10', 'atoms read: data without unit', ATF, "prop[propmodel['name']] = uc.value_unit(propmodel['data'])", "prop[propmodel['name']] = np.asarray(propmodel['data']['value'])", 'ATOMS-MODEL')
+mutant('C10', 'ec model read transposes nothing but drops unit', ECF, "self.Cij = uc.value_unit(model['Cij'])", "self.Cij = np.asarray(model['Cij']['value']).reshape(6, 6)", 'EC-MODEL')
+benign('C10', 'masses flag via any()', SYSF, "        addmasses = False\n        for mass in self.masses:\n            if mass is not None:\n                addmasses = True\n                break\n", "        addmasses = any(mass is not None for mass in self.masses)\n")
